@@ -231,60 +231,26 @@ inductive PfxvState where
   | valid | notFound | invalid
 deriving DecidableEq, Repr
 
-theorem lookup_size_le (w : Nat) (q : Addr) (n : Nat) : ∀ (t : Trie) (lvl : Nat) (s : Trie) (lvl' : Nat),
-    lookup w q n t lvl = some (s, lvl') → s.size ≤ t.size := by
-  intro t
-  induction t with
-  | nil => intro lvl s lvl' h; simp [lookup] at h
-  | node c l r ihl ihr =>
-    intro lvl s lvl' h
-    unfold lookup at h
-    split at h
-    · simp at h; rw [← h.1]; exact Nat.le_refl _
-    · split at h
-      · have := ihl _ _ _ h; simp only [Trie.size]; omega
-      · have := ihr _ _ _ h; simp only [Trie.size]; omega
+/-- `pfx_table_validate_r` on one trie.  The C text is two nested loops walking one path from the
+    root: `trie_lookup` advances along the query bits until a node covers the query
+    (`root->len <= mask_len && equal(get_bits(root->prefix, 0, root->len), get_bits(prefix, 0, root->len))`);
+    the outer `while (!pfx_table_elem_matches(...))` loop appends the node's records to `reason`,
+    answers VALID if one matches, and otherwise continues the lookup below it at `lvl + 1`
+    (the post-incremented `lvl`).  `seen` = "the first trie_lookup has already returned a node":
+    running off the path then answers INVALID, before that NOT_FOUND.
+    Returns the state and the visited covering nodes in visiting order. -/
+def walkR (w : Nat) (q : Addr) (n asn : Nat) : Trie → Nat → Bool → PfxvState × List NodeC
+  | .nil, _, seen => (if seen then .invalid else .notFound, [])
+  | .node c l r, lvl, seen =>
+    if c.len ≤ n ∧ prefixEq w c.addr q c.len then
+      if elemMatches c.data asn n then (.valid, [c])
+      else
+        let res := if isLeft w q lvl then walkR w q n asn l (lvl+1) true else walkR w q n asn r (lvl+1) true
+        (res.1, c :: res.2)
+    else if isLeft w q lvl then walkR w q n asn l (lvl+1) seen else walkR w q n asn r (lvl+1) seen
 
-theorem lookup_ne_nil (w : Nat) (q : Addr) (n : Nat) : ∀ (t : Trie) (lvl : Nat) (s : Trie) (lvl' : Nat),
-    lookup w q n t lvl = some (s, lvl') → ∃ c l r, s = .node c l r := by
-  intro t
-  induction t with
-  | nil => intro lvl s lvl' h; simp [lookup] at h
-  | node c l r ihl ihr =>
-    intro lvl s lvl' h
-    unfold lookup at h
-    split at h
-    · simp at h; exact ⟨c, l, r, h.1.symm⟩
-    · split at h
-      · exact ihl _ _ _ h
-      · exact ihr _ _ _ h
-
-/-- the `while (!pfx_table_elem_matches(...))` loop of `pfx_table_validate_r`, entered with the
-    node found by the first `trie_lookup`; reasons are appended per visited node.
-    `lvl` is post-incremented before the next `trie_lookup` on the child. -/
-def validateLoop (w : Nat) (q : Addr) (n asn : Nat) : Trie → Nat → List NodeC → PfxvState × List NodeC
-  | .nil, _, acc => (.invalid, acc)                 -- not reachable: lookup never returns NULL as `some`
-  | .node c l r, lvl, acc =>
-    if elemMatches c.data asn n then (.valid, acc)
-    else
-      let child := if isLeft w q lvl then l else r
-      match h : lookup w q n child (lvl+1) with
-      | none => (.invalid, acc)
-      | some (s, lvl') => validateLoop w q n asn s lvl' (acc ++ [match s with | .node c' _ _ => c' | .nil => c])
-termination_by t => t.size
-decreasing_by
-  have := lookup_size_le w q n child (lvl+1) s lvl' h
-  have hc : child.size < (Trie.node c l r).size := by
-    simp only [child, Trie.size]; split <;> omega
-  omega
-
-/-- `pfx_table_validate_r` for the trie of one family: state and the visited covering nodes
-    (each contributes all of its payload elements to `reason`) -/
 def validateR (w : Nat) (q : Addr) (n asn : Nat) (t : Trie) : PfxvState × List NodeC :=
-  match lookup w q n t 0 with
-  | none => (.notFound, [])
-  | some (s, lvl) =>
-    validateLoop w q n asn s lvl [match s with | .node c _ _ => c | .nil => ⟨0, 0, []⟩]
+  walkR w q n asn t 0 false
 
 /-! ## destruction (the do-while loop of pfx_table_free for one root) -/
 
